@@ -142,8 +142,6 @@ Proof.
   - intros ->. apply skipn_all.
 Qed.
 
-Definition is_nil {A} (l : list A) : bool := match l with [] => true | _ => false end.
-
 (* the flag handed to the callback is true exactly when no byte is buffered behind the telegram *)
 Lemma receive_all_is_last {St R} (f : St -> telegram -> bool -> res (St * R)) fuel s buf t n :
   decode buf = Ok (Accept t n) ->
@@ -347,9 +345,6 @@ Qed.
 
 (* ------------------------------------------------------------- what take_frames says about the bytes *)
 
-Definition short (ts : list telegram) (buf : bytes) : Prop :=
-  match ts with [] => buf = [] | t :: _ => (length buf < frame_len t)%nat end.
-
 Lemma stream_app a b : stream (a ++ b) = stream a ++ stream b.
 Proof. unfold stream. rewrite map_app, concat_app. reflexivity. Qed.
 
@@ -388,24 +383,6 @@ Proof.
 Qed.
 
 (* ------------------------------------------------------------- chunk after chunk: receive_all_telegrams *)
-
-Definition delivered (outs : list poll_out) : list telegram := map fst (concat (map po_deliv outs)).
-Definition final_buffer (buf : bytes) (outs : list poll_out) : bytes := last (map po_rest outs) buf.
-
-(* after every poll: what was delivered so far followed by what is still buffered is exactly
-   what has arrived (nothing dropped, nothing duplicated), and what is buffered is shorter than
-   the next outstanding frame (so no complete telegram was left behind) *)
-Fixpoint history_ok (ts : list telegram) (buf : bytes) (cs : list bytes) (outs : list poll_out) : Prop :=
-  match cs, outs with
-  | [], [] => True
-  | c :: cs', o :: outs' =>
-      exists rem,
-        ts = map fst (po_deliv o) ++ rem /\
-        buf ++ c = stream (map fst (po_deliv o)) ++ po_rest o /\
-        short rem (po_rest o) /\
-        history_ok rem (po_rest o) cs' outs'
-  | _, _ => False
-  end.
 
 Lemma last_default {A} (l : list A) x d d' : last (x :: l) d = last (x :: l) d'.
 Proof. revert x. induction l as [|y l IH]; intros x; [reflexivity|]. cbn [last] in *. apply IH. Qed.
@@ -637,10 +614,6 @@ Qed.
 
 (* ------------------------------------------------------------- the helpers over an abstract PHY *)
 
-Definition phy_coherent {P} (ops : phy_ops P) : Prop :=
-  forall p buf n, phy_view ops p = Ok buf -> (n <= length buf)%nat ->
-                  phy_view ops (phy_drop ops p n) = Ok (skipn n buf).
-
 Lemma receive_all_phy_refines {P St R} (ops : phy_ops P) (f : St -> telegram -> bool -> res (St * R)) :
   phy_coherent ops ->
   forall fuel s p buf, phy_view ops p = Ok buf ->
@@ -711,3 +684,142 @@ Proof.
   destruct (Nat.ltb_spec (length (sb_stream bus)) cur) as [H|_]; [lia|].
   f_equal. rewrite skipn_firstn_comm. rewrite skipn_skipn'. f_equal. lia.
 Qed.
+
+(* ------------------------------------------------------------- simulator: byte availability *)
+
+Lemma baud_rate_pos b : 0 < baud_to_rate b.
+Proof. destruct b; reflexivity. Qed.
+
+Lemma avail_value bus c rest t : sb_telegrams bus = c :: rest -> bus_wf bus -> c_ts c <= t -> no_overflow bus c t ->
+  avail bus t = Ok (length (sb_stream bus) - c_len c +
+                    Z.to_nat (Z.min ((t - c_ts c) * baud_to_rate (sb_baud bus) / 1000000 / 11) (Z.of_nat (c_len c))))%nat.
+Proof.
+  intros HT WF Ht [O1 O2]. unfold avail, current_cursor, set_bus_time. cbn [sb_telegrams sb_time sb_baud sb_stream]. rewrite HT.
+  unfold tx_bytes. cbn [sb_time sb_baud]. unfold instant_diff, i64_ok.
+  destruct (Z.leb_spec (-9223372036854775808) (t - c_ts c)) as [_|H]; [|lia].
+  destruct (Z.leb_spec (t - c_ts c) 9223372036854775807) as [_|H]; [|lia]. cbn [andb bind].
+  rewrite Z.abs_eq by lia. unfold time_to_bits_chk, u64_ok, time_to_bits.
+  pose proof (baud_rate_pos (sb_baud bus)) as RP.
+  destruct (Z.leb_spec 0 ((t - c_ts c) * baud_to_rate (sb_baud bus))) as [_|H]; [|nia].
+  destruct (Z.leb_spec ((t - c_ts c) * baud_to_rate (sb_baud bus)) 18446744073709551615) as [_|H]; [|lia]. cbn [andb bind].
+  unfold bus_wf in WF. rewrite HT in WF. destruct WF as [WF1 WF2].
+  destruct (Nat.ltb_spec (length (sb_stream bus)) (c_len c)) as [H|_]; [lia|]. reflexivity.
+Qed.
+
+Lemma sim_monotone bus c rest t1 t2 :
+  sb_telegrams bus = c :: rest -> bus_wf bus -> c_ts c <= t1 <= t2 -> no_overflow bus c t2 ->
+  exists a1 a2, avail bus t1 = Ok a1 /\ avail bus t2 = Ok a2 /\
+    (length (sb_stream bus) - c_len c <= a1 <= a2)%nat /\ (a2 <= length (sb_stream bus))%nat /\
+    firstn a1 (firstn a2 (sb_stream bus)) = firstn a1 (sb_stream bus).
+Proof.
+  intros HT WF [Ha Hb] [O1 O2]. pose proof (baud_rate_pos (sb_baud bus)) as RP.
+  assert (NO1 : no_overflow bus c t1) by (split; nia).
+  rewrite (avail_value bus c rest t1 HT WF Ha NO1).
+  rewrite (avail_value bus c rest t2 HT WF ltac:(lia) (conj O1 O2)).
+  do 2 eexists. split; [reflexivity|]. split; [reflexivity|].
+  unfold bus_wf in WF. rewrite HT in WF. destruct WF as [WF1 WF2].
+  assert (M : (t1 - c_ts c) * baud_to_rate (sb_baud bus) / 1000000 / 11 <= (t2 - c_ts c) * baud_to_rate (sb_baud bus) / 1000000 / 11).
+  { apply Z.div_le_mono; [lia|]. apply Z.div_le_mono; [lia|]. nia. }
+  assert (P1 : 0 <= (t1 - c_ts c) * baud_to_rate (sb_baud bus) / 1000000 / 11).
+  { apply Z.div_pos; [|lia]. apply Z.div_pos; [nia|lia]. }
+  split; [|split].
+  - lia.
+  - lia.
+  - rewrite firstn_firstn. f_equal. lia.
+Qed.
+
+Lemma sim_reaches_all bus c rest t :
+  sb_telegrams bus = c :: rest -> bus_wf bus ->
+  c_ts c + bits_to_time (sb_baud bus) (11 * Z.of_nat (c_len c)) + 1 <= t -> no_overflow bus c t ->
+  avail bus t = Ok (length (sb_stream bus)).
+Proof.
+  intros HT WF Ht NO. pose proof (baud_rate_pos (sb_baud bus)) as RP.
+  unfold bits_to_time in Ht.
+  assert (Q0 : 0 <= 11 * Z.of_nat (c_len c) * 1000000 / baud_to_rate (sb_baud bus)) by (apply Z.div_pos; lia).
+  rewrite (avail_value bus c rest t HT WF ltac:(lia) NO). f_equal.
+  unfold bus_wf in WF. rewrite HT in WF. destruct WF as [WF1 WF2].
+  set (N := 11 * Z.of_nat (c_len c) * 1000000) in *. set (rate := baud_to_rate (sb_baud bus)) in *.
+  assert (B : N < (N / rate + 1) * rate).
+  { pose proof (Z.div_mod N rate ltac:(lia)) as DM. pose proof (Z.mod_pos_bound N rate RP). nia. }
+  assert (G : N <= (t - c_ts c) * rate) by nia.
+  assert (G2 : 11 * Z.of_nat (c_len c) <= (t - c_ts c) * rate / 1000000).
+  { apply Z.div_le_lower_bound; [lia|]. unfold N in G. lia. }
+  assert (G3 : Z.of_nat (c_len c) <= (t - c_ts c) * rate / 1000000 / 11).
+  { apply Z.div_le_lower_bound; lia. }
+  rewrite Z.min_r by lia. lia.
+Qed.
+
+Lemma avail_empty bus t : sb_telegrams bus = [] -> bus_wf bus -> avail bus t = Ok (length (sb_stream bus)).
+Proof.
+  intros HT WF. unfold avail, current_cursor, set_bus_time. cbn [sb_telegrams]. rewrite HT.
+  unfold bus_wf in WF. rewrite HT in WF. rewrite WF. reflexivity.
+Qed.
+
+(* enqueue only appends: nothing is reordered or duplicated, the invariant is kept *)
+Lemma enqueue_appends bus name data bus' : enqueue bus name data = Ok bus' ->
+  sb_stream bus' = sb_stream bus ++ data /\ (bus_wf bus -> bus_wf bus').
+Proof.
+  unfold enqueue. destruct (is_active bus) as [[a|]| |]; cbn [bind]; try discriminate.
+  destruct data as [|x data]. { intros E. injection E as <-. rewrite app_nil_r. split; [reflexivity|tauto]. }
+  destruct (decode (x :: data)) as [d| |]; cbn [bind]; try discriminate.
+  match goal with |- (let* _ := ?X in _) = _ -> _ => destruct X as [[tm sa]| |] end; cbn [bind]; try discriminate.
+  match goal with |- (let* _ := ?X in _) = _ -> _ => destruct X as [u| |] end; cbn [bind]; try discriminate.
+  intros E. injection E as <-. cbn [sb_stream sb_telegrams]. split; [reflexivity|].
+  intros _. unfold bus_wf. cbn [sb_telegrams sb_stream c_index c_len]. rewrite app_length. cbn [length]. lia.
+Qed.
+
+Lemma bus_new_wf b : bus_wf (bus_new b).
+Proof. reflexivity. Qed.
+
+(* ------------------------------------------------------------- packaged statements *)
+
+Lemma progress_all buf t n : decode buf = Ok (Accept t n) ->
+  (1 <= n <= length buf)%nat /\
+  (length (skipn n buf) < length buf)%nat /\ (length (skipn n buf) + n = length buf)%nat.
+Proof. intros D. split; [exact (drop_within buf t n D)|exact (receive_all_progress buf t n D)]. Qed.
+
+Lemma short_nil ts : short ts [].
+Proof. destruct ts as [|t ts]; [reflexivity|cbn; apply frame_len_pos]. Qed.
+
+Lemma reassembly_all ts cs : Forall valid_telegram ts -> concat cs = stream ts ->
+  exists outs, run_polls poll_all [] cs = Ok outs /\
+    delivered outs = ts /\ final_buffer [] outs = [] /\
+    map obs_of outs = spec_polls true ts 0 (map (@length Z) cs).
+Proof.
+  intros V E. destruct (run_polls_all_stream cs ts [] V E) as (outs & R & O & _ & F).
+  destruct (F (short_nil ts)) as [F1 F2]. exists outs. repeat split; assumption.
+Qed.
+
+Lemma history_all ts cs : Forall valid_telegram ts -> concat cs = stream ts ->
+  exists outs, run_polls poll_all [] cs = Ok outs /\ history_ok ts [] cs outs.
+Proof.
+  intros V E. destruct (run_polls_all_stream cs ts [] V E) as (outs & R & _ & H & _).
+  exists outs. split; assumption.
+Qed.
+
+(* the boolean domain test used by the driver implies the Prop used by the theorems *)
+Lemma is_byteb_sound b : is_byteb b = true -> is_byte b.
+Proof. unfold is_byteb, is_byte. intros H. apply andb_prop in H. destruct H as [H1 H2]. apply Z.leb_le in H1. apply Z.ltb_lt in H2. lia. Qed.
+
+Lemma valid_telegramb_sound t : valid_telegramb t = true -> valid_telegram t.
+Proof.
+  destruct t as [h pdu|da sa|]; cbn [valid_telegramb valid_telegram]; intros H; [| |exact I].
+  - apply andb_prop in H. destruct H as [H Hp]. apply andb_prop in H. destruct H as [Hh Hl].
+    split; [|split].
+    + unfold wf_headerb in Hh. unfold wf_header, is_addr7, wf_sap.
+      repeat (apply andb_prop in Hh; destruct Hh as [Hh ?]).
+      repeat match goal with
+             | H : (_ <=? _) = true |- _ => apply Z.leb_le in H
+             | H : (_ <? _) = true |- _ => apply Z.ltb_lt in H
+             end.
+      repeat split; try lia.
+      * destruct (h_dsap h); [apply is_byteb_sound; assumption|exact I].
+      * destruct (h_ssap h); [apply is_byteb_sound; assumption|exact I].
+    + apply Nat.leb_le, Hl.
+    + unfold all_bytesb in Hp. unfold all_bytes. apply Forall_forall. intros x Hx.
+      rewrite forallb_forall in Hp. apply is_byteb_sound, Hp, Hx.
+  - apply andb_prop in H. destruct H as [H1 H2]. split; apply is_byteb_sound; assumption.
+Qed.
+
+Lemma valid_all_sound ts : forallb valid_telegramb ts = true -> Forall valid_telegram ts.
+Proof. intros H. apply Forall_forall. intros t Ht. rewrite forallb_forall in H. apply valid_telegramb_sound, H, Ht. Qed.
